@@ -115,6 +115,10 @@ class MindsDBParser(Parser):
         model = params.pop('model', None)
         storage = params.pop('storage', None)
 
+        for key, value in (('model', model), ('storage', storage)):
+            if value == '':
+                raise ParsingException(f"CREATE KNOWLEDGE_BASE parameter '{key}' can't be an empty string")
+
         if isinstance(storage, str):
             # convert to identifier
             storage = Identifier(storage)
